@@ -1,11 +1,14 @@
 import LibInj.Xss.IsXSS
+import LibInj.Proofs.XssShift
 set_option linter.unusedSimpArgs false
 /-! # C13 — XSS contexts mean what they say; surrounding text cannot hide a vector
 
 Proved: `isXSS_or` — `IsXSS` is exactly the disjunction of the five context verdicts (evaluated in
 order, short-circuiting, which is invisible because the contexts are pure functions of the input).
-Not yet theorems (statements kept; checked by the oracle on every generated input): the embedding
-relation `ctx_embed_statement` and the prefix relation `data_prefix_statement`. -/
+`ctx_embed` and `data_prefix` close the other two clauses: the tokenizer and the `isXSS` loop commute with
+prepending bytes to the input (`Proofs/H5Shift`, `Proofs/XssShift`: every state function on the shifted
+state gives the shifted result, on the states that do not test `pos = 0`), the harmless tag prefixes
+are stepped through by kernel evaluation, and a `<`-free prefix only lengthens the first text token. -/
 namespace LibInj.Properties.C13
 open LibInj LibInj.Xss
 
@@ -65,6 +68,30 @@ def ctx_embed_statement : Prop :=
 
 def data_prefix_statement : Prop :=
   ∀ (s t : Bytes), (60 : UInt8) ∉ t → isXSSCtx (t ++ s) 0 = isXSSCtx s 0
+
+/-- **C13, embedding.** The verdict of an attribute context is the element-content verdict of the input
+placed at that position of a harmless tag. -/
+theorem ctx_embed : ctx_embed_statement := by
+  intro s c h1 h4
+  have hc : c = 1 ∨ c = 2 ∨ c = 3 ∨ c = 4 := by omega
+  rcases hc with rfl | rfl | rfl | rfl
+  · exact (embed_ctx1 s).symm
+  · exact (embed_quote 39 2 (Or.inl rfl) rfl s).symm
+  · exact (embed_quote 34 3 (Or.inr (Or.inl rfl)) rfl s).symm
+  · exact (embed_quote 96 4 (Or.inr (Or.inr rfl)) rfl s).symm
+
+/-- **C13, prefix.** Text without `<` in front of the input never changes the element-content verdict. -/
+theorem data_prefix : data_prefix_statement := fun s t ht => Xss.data_prefix s t ht
+
+/-- **C13, full statement on the model**: `IsXSS` is the disjunction of the five context verdicts, each
+attribute context is the element-content reading of the embedded input, and a `<`-free prefix is inert. -/
+theorem xss_contexts (s : Bytes) :
+    (∀ b0 b1 b2 b3 b4, isXSSCtx s 0 = .ok b0 → isXSSCtx s 1 = .ok b1 → isXSSCtx s 2 = .ok b2 →
+      isXSSCtx s 3 = .ok b3 → isXSSCtx s 4 = .ok b4 → isXSS s = .ok (b0 || b1 || b2 || b3 || b4)) ∧
+    (∀ c, 1 ≤ c → c ≤ 4 → isXSSCtx s c = isXSSCtx (embed c ++ s) 0) ∧
+    (∀ t, (60 : UInt8) ∉ t → isXSSCtx (t ++ s) 0 = isXSSCtx s 0) :=
+  ⟨fun b0 b1 b2 b3 b4 h0 h1 h2 h3 h4 => isXSS_or s b0 b1 b2 b3 b4 h0 h1 h2 h3 h4,
+   fun c h1 h4 => ctx_embed s c h1 h4, fun t ht => data_prefix s t ht⟩
 
 /-- non-vacuity / regression instances of the two open statements, evaluated by the kernel on the model -/
 example : isOkTrue (isXSSCtx [111, 110, 99, 108, 105, 99, 107, 61, 120] 1) = true ∧
